@@ -20,6 +20,7 @@ from __future__ import annotations
 
 from typing import Any, Callable, Iterable, Iterator, List, Mapping, Optional, Type
 import attr
+import grpc
 from vizier._src.service import constants
 from vizier._src.service import resources
 from vizier._src.service import vizier_client
@@ -182,6 +183,13 @@ class Study(client_abc.StudyInterface):
       raise ResourceNotFoundError(
           f'Study {self.resource_name} does not have Trial {trial_id}.'
       ) from err
+    except grpc.RpcError as err:
+      # Behind gRPC the lookup error arrives as a NOT_FOUND status.
+      if err.code() == grpc.StatusCode.NOT_FOUND:  # pytype:disable=attribute-error
+        raise ResourceNotFoundError(
+            f'Study {self.resource_name} does not have Trial {trial_id}.'
+        ) from err
+      raise
 
   def optimal_trials(self, count: Optional[int] = None) -> TrialIterable:
     if count is None:
